@@ -101,3 +101,18 @@ impl PrefixFileSet {
         self.files.push(file);
     }
 }
+
+#[cfg(servlin_verif)]
+impl PrefixFileSet {
+    /// Verification hook: the running total and the files the set knows.
+    #[must_use]
+    pub fn verif_snapshot(&self) -> (u64, Vec<(PathBuf, SystemTime, u64)>) {
+        (
+            self.len,
+            self.files
+                .iter()
+                .map(|f| (f.path.clone(), f.mtime, f.len))
+                .collect(),
+        )
+    }
+}
